@@ -143,7 +143,8 @@ def check_tail_invariant(ctx, F, tag, prefix="C05.R1"):
             so = Call("bits::split_offset", Call(RV + "::len", Param(0)))
             okw = m(("field", so, "1"), w) or (w[0] == "field" and m(so, w[1]))
             fs = facts_at(sb, bi)
-            g = any(f[0] == "cmp" and f[1] == "Gt" and core(f[2]) == core(w) and m(Const(0), f[3]) for f in fs)
+            from guards import fact_nonzero
+            g = fact_nonzero(fs, w)
             nf = any(f[0] == "bool" and core(f[1])[:2] == ("param", 1) and f[2] is False for f in fs)
             idx = sb.term_of_local(st["lhs"]["l"])
             oki = any(x[0] == "field" and x[2] == "0" and m(so, x[1]) for x in subterms(idx)) and \
